@@ -369,6 +369,28 @@ class FakeAPI:
         self.betting = exchange
         self.username = username
         self.session_timeout = 1200
+        self.session_expired = False
+
+        class _Account:
+            @staticmethod
+            def get_account_details():
+                raise bflw_exc.APIError(None)
+
+            @staticmethod
+            def get_account_funds():
+                raise bflw_exc.APIError(None)
+
+        self.account = _Account()
+
+    # what the framework calls when it is entered / left (`with framework:`), answered without any network
+    def login(self):
+        return None
+
+    def logout(self):
+        return None
+
+    def keep_alive(self):
+        return None
 
 
 class ControlledExecutor:
@@ -408,8 +430,12 @@ class ControlledExecutor:
 
 
 class LiveWorld:
-    def __init__(self, strategies, exchange=None, n_clients=1, async_place=False, transaction_limit=None, market_files=(), usernames=None, paper=False, commissions=None):
-        fconfig.simulated = False
+    def __init__(self, strategies, exchange=None, n_clients=1, async_place=False, transaction_limit=None, market_files=(), usernames=None, paper=False, commissions=None, enter=False):
+        # enter=True: the framework is entered as `Flumine.run()` does (`with self:`) - without workers and streams - so that whatever a live
+        # instance sets up for itself when it starts is set up by flumine, not by this harness (e.g. after a backtest in the same process)
+        self.entered = False
+        if not enter:
+            fconfig.simulated = False
         fconfig.async_place_orders = async_place
         self.exchange = exchange or Exchange()
         self.clients = []
@@ -454,6 +480,12 @@ class LiveWorld:
             self.strategies.append(st)
         self.gens = {}
         self.books = {}
+        if enter:
+            self.fw._add_default_workers = lambda: None
+            self.fw.__enter__()
+            self.entered = True
+            for c in self.clients:
+                c.account_details = None
 
     def add_strategy(self, st):
         """what BaseFlumine.add_strategy does, without opening streams"""
@@ -521,6 +553,12 @@ class LiveWorld:
         self.deliver(self.exchange.snapshot(client or self.clients[0], table, only))
 
     def close(self):
+        if self.entered:
+            try:
+                self.fw.__exit__(None, None, None)
+            except Exception:  # noqa: BLE001
+                pass
+            self.entered = False
         for ex in (self.fw.simulated_execution, self.fw.betdaq_execution):
             try:
                 ex._thread_pool.shutdown(wait=False)
